@@ -871,12 +871,15 @@ Proof.
   split; [exact Hnd|]. split; [exact Hdis|]. split; [exact Hbd | exact (Hz Hn)].
 Qed.
 
-Lemma step_keep : forall k s c n r np, Good k s c -> 1 <= n -> length (active s) + n <= budget k ->
-  StepOK k s c (EprKeep n r np).
+Lemma step_keep : forall k s c n r sq np, Good k s c -> 1 <= n -> length (active s) + n <= budget k ->
+  StepOK k s c (EprKeep n r sq np).
 Proof.
-  intros k s c n r np HGood Hn Hb. set (cs := if r then np else []). pose proof (budget_le k) as Hbl. unfold StepOK. simpl.
+  intros k s c n r sq np HGood Hn Hb. set (cs := if r then np else []). pose proof (budget_le k) as Hbl. unfold StepOK. simpl.
   destruct (n =? 0) eqn:En0; [apply Nat.eqb_eq in En0; lia|].
-  destruct (max_q k <? n) eqn:Enq; [apply Nat.ltb_lt in Enq; lia|].
+  destruct (sq && (1 <? n)) eqn:Esq.
+  { split; [intros e He; inversion He; reflexivity | intros s' He; discriminate]. }
+  assert (Enq : (max_q k <? n) = false) by (apply Nat.ltb_ge; lia).
+  rewrite Enq, andb_false_r.
   destruct (nv k) eqn:Hnv.
   - (* NV *)
     unfold ent_handles, single_comm. rewrite Hnv. simpl.
@@ -1014,19 +1017,77 @@ Proof.
   - rewrite app_nil_r. split; [exact A|]. intros h H. apply B in H. lia.
 Qed.
 
-Lemma step_seq : forall k s c n r np b, Good k s c -> 1 <= n -> length (active s) + 1 <= budget k ->
-  (keeps b = true -> n = 1) -> StepOK k s c (EprKeepSeq n r np b).
+(* several communication qubits, every pair delivered into its own ID and handled there *)
+Lemma own_ids_ok : forall k s c n cs b, Good k s c -> nv k = false -> 1 <= n -> length (active s) + n <= budget k ->
+  exists s1 vs c', ent_handles k s n = inl (s1, vs) /\
+    Ext s c (emit s1 (pair_loop vs cs b)) c' /\ H0 s1 /\ last_new s1 = None /\
+    (if keeps b then G0 k (active s1) c' /\ length (active s1) = length (active s) + n
+     else G0 k (active s) c' /\ drop_last_handles n (active s1) = active s) /\
+    (forall h, In h (handles s) -> In h (handles s1)).
 Proof.
-  intros k s c n r np b HGood Hn Hb Hk. unfold StepOK. simpl.
+  intros k s c n cs b HGood Hnv Hn Hb. pose proof (budget_le k) as Hbl.
+  destruct (generic_handles k s c n HGood Hnv Hn Hb)
+    as [c1 [s1 [vs [new [HE [HG [E [Ha [Hv [Hl [Hp [Hln [HH1 [Hnd [Hdis [Hbd _]]]]]]]]]]]]]]]].
+  assert (Hpend : pending (emit s1 (pair_loop vs cs b)) = pending (commit s) ++ pair_loop vs cs b).
+  { rewrite emit_None by exact Hln. rewrite Hp. reflexivity. }
+  assert (Hsub : forall h, In h (handles s) -> In h (handles s1)).
+  { intros h Hh. unfold handles. rewrite Ha, map_app, in_app_iff. left. exact Hh. }
+  exists s1, vs. destruct b as [u|]; simpl keeps; cbv iota.
+  - exists c1. split; [exact E|]. split.
+    + eapply Ext_trans; [exact HE|]. exists (pair_loop vs cs (BConsume u)). split; [exact Hpend|].
+      apply pair_loop_consume_ok. intros v Hvin. destruct HG as [Hcap _ _ Hs _]. split.
+      * intros H. apply (Hdis v Hvin). apply Hs. exact H.
+      * rewrite Hcap. apply Hbd in Hvin. lia.
+    + split; [exact HH1|]. split; [exact Hln|]. split; [|exact Hsub].
+      split; [exact HG | rewrite Ha; apply drop_last_app; exact Hl].
+  - subst vs. destruct (pair_loop_keep_ok k new cs (active s) c1 HG Hnd Hdis) as [c2 [O2 HG2]].
+    + intros v Hvin. apply Hbd in Hvin. lia.
+    + exists c2. split; [exact E|]. split.
+      * eapply Ext_trans; [exact HE|]. exists (pair_loop (map snd new) cs BKeep). split; [exact Hpend | exact O2].
+      * split; [exact HH1|]. split; [exact Hln|]. split; [|exact Hsub].
+        split; [rewrite Ha; exact HG2 | rewrite Ha, app_length; lia].
+Qed.
+
+Lemma step_seq : forall k s c n r (sq : bool) np b, Good k s c -> 1 <= n ->
+  length (active s) + (if sq then 1 else n) <= budget k ->
+  (keeps b = true -> n = 1 \/ (sq = false /\ single_comm k = false)) -> StepOK k s c (EprKeepSeq n r sq np b).
+Proof.
+  intros k s c n r sq np b HGood Hn Hb Hk. pose proof (budget_le k) as Hbl. unfold StepOK. simpl.
   destruct (n =? 0) eqn:En0; [apply Nat.eqb_eq in En0; lia|].
-  destruct (seq_run_ok k s c n (single_comm k) (if r then np else []) b HGood Hn Hb (fun H => H) Hk)
-    as [s1 [c1 [E [HE [HG [HL [Hh Hnh]]]]]]].
-  rewrite E. split; [intros e He; discriminate|]. intros s' He. inversion He; subst s'. clear He.
-  exists c1. split; [exact HE|]. destruct HGood as [HH [_ Hlen]]. split; [|split].
-  - unfold H0. rewrite Hnh. apply (seq_H0 s (handles s1) (next_h s + n) n (keeps b) HH Hn Hh).
-    destruct (keeps b); lia.
-  - unfold Rel. rewrite HL. exact HG.
-  - rewrite <- handles_length, Hh, app_length, handles_length. destruct (keeps b); simpl; lia.
+  assert (Erej : negb sq && (max_q k <? n) = false).
+  { destruct sq; [reflexivity|]. simpl. apply Nat.ltb_ge. lia. }
+  rewrite Erej.
+  destruct (sq || single_comm k) eqn:Eone.
+  - assert (Hb1 : length (active s) + 1 <= budget k) by (destruct sq; lia).
+    assert (Hk1 : keeps b = true -> n = 1).
+    { intros H. destruct (Hk H) as [H1|[H1 H2]]; [exact H1|]. rewrite H1, H2 in Eone. discriminate. }
+    destruct (seq_run_ok k s c n (single_comm k) (if r then np else []) b HGood Hn Hb1 (fun H => H) Hk1)
+      as [s1 [c1 [E [HE [HG [HL [Hh Hnh]]]]]]].
+    rewrite E. split; [intros e He; discriminate|]. intros s' He. inversion He; subst s'. clear He.
+    exists c1. split; [exact HE|]. destruct HGood as [HH [_ Hlen]]. split; [|split].
+    + unfold H0. rewrite Hnh. apply (seq_H0 s (handles s1) (next_h s + n) n (keeps b) HH Hn Hh).
+      destruct (keeps b); lia.
+    + unfold Rel. rewrite HL. exact HG.
+    + rewrite <- handles_length, Hh, app_length, handles_length. destruct (keeps b); simpl; lia.
+  - apply orb_false_iff in Eone. destruct Eone as [Esq Esc]. subst sq.
+    assert (Hnv : nv k = false) by (unfold single_comm in Esc; apply orb_false_iff in Esc; tauto).
+    destruct (own_ids_ok k s c n (if r then np else []) b HGood Hnv Hn Hb)
+      as [s1 [vs [c' [E [HE [HH1 [HL1 [Hcase Hsub]]]]]]]].
+    rewrite E. split; [intros e He; discriminate|]. intros s' He.
+    destruct (emit_active s1 (pair_loop vs (if r then np else []) b)) as [Ea [En Eln]].
+    destruct HGood as [[A B] [_ Hlen]]. destruct HH1 as [A1 B1].
+    destruct (keeps b); inversion He; subst s'; clear He.
+    + destruct Hcase as [HG Hl]. exists c'. split; [exact HE|]. split; [|split].
+      * unfold H0, handles. rewrite ?Ea, ?En. split; assumption.
+      * unfold Rel. rewrite ?Eln, ?Ea. simpl. exact HG.
+      * rewrite ?Ea, Hl. exact Hb.
+    + destruct Hcase as [HG Hd]. exists c'. split.
+      * destruct HE as [evs [Hp Ho]]. exists evs. split; [exact Hp | exact Ho].
+      * split; [|split].
+        -- unfold H0, handles. cbn [active next_h]. rewrite ?Ea, ?En, Hd. split; [exact A|].
+           intros h Hh. apply B1. apply Hsub. exact Hh.
+        -- unfold Rel. cbn [last_new active]. rewrite ?Eln, ?Ea, Hd. simpl. exact HG.
+        -- cbn [active]. rewrite ?Ea, Hd. exact Hlen.
 Qed.
 
 Lemma step_ctx : forall k s c n r b, Good k s c -> 1 <= n -> length (active s) + n <= budget k ->
@@ -1050,28 +1111,21 @@ Proof.
       destruct (keeps b); simpl; lia.
   - assert (Hnv : nv k = false).
     { unfold single_comm in Hsc. apply orb_false_iff in Hsc. tauto. }
-    destruct (generic_handles k s c n HGood Hnv Hn Hb)
-      as [c1 [s1 [vs [new [HE [HG [E [Ha [Hv [Hl [Hp [Hln [HH1 [Hnd [Hdis [Hbd _]]]]]]]]]]]]]]]].
+    destruct (own_ids_ok k s c n [] b HGood Hnv Hn Hb) as [s1 [vs [c' [E [HE [HH1 [HL1 [Hcase Hsub]]]]]]]].
     rewrite E. split; [intros e He; discriminate|]. intros s' He.
-    assert (Hpend : pending (emit s1 (pair_loop vs [] b)) = pending (commit s) ++ pair_loop vs [] b).
-    { rewrite emit_None by exact Hln. rewrite Hp. reflexivity. }
-    destruct HGood as [HH [_ Hlen]].
-    destruct b as [u|]; simpl keeps in He; cbv iota in He; inversion He; subst s'; clear He.
-    + exists c1. split.
-      * eapply Ext_trans; [exact HE|]. exists (pair_loop vs [] (BConsume u)). split; [exact Hpend|].
-        apply pair_loop_consume_ok. intros v Hvin. destruct HG as [Hcap _ _ Hs _]. split.
-        -- intros H. apply (Hdis v Hvin). apply Hs. exact H.
-        -- rewrite Hcap. apply Hbd in Hvin. lia.
+    destruct (emit_active s1 (pair_loop vs [] b)) as [Ea [En Eln]].
+    destruct HGood as [[A B] [_ Hlen]]. destruct HH1 as [A1 B1].
+    destruct (keeps b); inversion He; subst s'; clear He.
+    + destruct Hcase as [HG Hl]. exists c'. split; [exact HE|]. split; [|split].
+      * unfold H0, handles. rewrite ?Ea, ?En. split; assumption.
+      * unfold Rel. rewrite ?Eln, ?Ea. simpl. exact HG.
+      * rewrite ?Ea, Hl. exact Hb.
+    + destruct Hcase as [HG Hd]. exists c'. split.
+      * destruct HE as [evs [Hp Ho]]. exists evs. split; [exact Hp | exact Ho].
       * split; [|split].
-        -- unfold H0, handles. simpl. rewrite Ha, (drop_last_app _ _ _ Hl). exact HH.
-        -- unfold Rel. simpl. rewrite Ha, (drop_last_app _ _ _ Hl). exact HG.
-        -- simpl. rewrite Ha, (drop_last_app _ _ _ Hl). exact Hlen.
-    + subst vs. destruct (pair_loop_keep_ok k new [] (active s) c1 HG Hnd Hdis) as [c2 [O2 HG2]].
-      * intros v Hvin. apply Hbd in Hvin. lia.
-      * exists c2. split.
-        -- eapply Ext_trans; [exact HE|]. exists (pair_loop (map snd new) [] BKeep). split; [exact Hpend | exact O2].
-        -- split; [exact HH1|]. split; [unfold Rel; simpl; rewrite Ha; exact HG2|].
-           simpl. rewrite Ha, app_length. lia.
+        -- unfold H0, handles. cbn [active next_h]. rewrite ?Ea, Hd. split; assumption.
+        -- unfold Rel. cbn [last_new active]. rewrite ?Eln, ?Ea, Hd. simpl. exact HG.
+        -- cbn [active]. rewrite ?Ea, Hd. exact Hlen.
 Qed.
 
 (* ------------------------------------------------------------------ any program *)
@@ -1092,8 +1146,11 @@ Proof.
     apply Nat.leb_le in H1, H2. apply step_ctx; try assumption.
     intros Hkp Hsc. rewrite Hkp, Hsc in H3. simpl in H3. apply Nat.eqb_eq. exact H3.
   - apply andb_true_iff in Hb. destruct Hb as [Hb H3]. apply andb_true_iff in Hb. destruct Hb as [H1 H2].
-    apply Nat.leb_le in H1, H2. apply step_seq; try assumption.
-    intros Hkp. rewrite Hkp in H3. simpl in H3. apply Nat.eqb_eq. exact H3.
+    apply Nat.leb_le in H1. apply step_seq; try assumption.
+    + destruct sq; apply Nat.leb_le in H2; exact H2.
+    + intros Hkp. rewrite Hkp in H3. simpl in H3. apply orb_true_iff in H3. destruct H3 as [H3|H3].
+      * left. apply Nat.eqb_eq. exact H3.
+      * right. apply andb_true_iff in H3. destruct H3 as [Ha Hc]. apply negb_true_iff in Ha, Hc. split; assumption.
   - congruence.
 Qed.
 
